@@ -76,12 +76,25 @@ def kmsSpec : Spec (List String) where
     | ["get", id] => (s, if s.contains id then "ok" else "err")
     | _ => (s, "?")
 
-/-- session manager, one user: open (refused while open) | close (true iff open) -/
-def sessionSpec : Spec Bool where
-  init := false
+/-- session manager, one user; the state is the number of the live token. `open#n` (refused while open) makes token n
+    live | `close` (true iff open) | `use#n`: is token n the live one? (a token is dead once its session was closed) -/
+def sessionSpec : Spec (Option String) where
+  init := none
   step s op :=
-    if op == "open" then (if s then (s, "err") else (true, "ok"))
-    else (if s then (false, "true") else (s, "false"))
+    match op.splitOn "#" with
+    | ["open", n] => (match s with | some _ => (s, "err") | none => (some n, "ok"))
+    | ["use", n] => (s, if s == some n then "live" else "dead")
+    | _ => (match s with | some _ => (none, "true") | none => (s, "false"))
+
+/-- wallet contents of one type: add id name (refused when the id is taken) | rm id | get id -/
+def walletSpec : Spec (List (String × String)) where
+  init := []
+  step s op :=
+    match op.splitOn " " with
+    | ["add", k, v] => if s.any (·.1 == k) then (s, "err") else ((k, v) :: s, "ok")
+    | ["rm", k] => (s.filter (·.1 != k), "ok")
+    | ["get", k] => (s, match s.find? (·.1 == k) with | some (_, v) => v | none => "notfound")
+    | _ => (s, "?")
 
 /-- inbox: add m | pick n (the first n held messages, FIFO) -/
 def pickupSpec : Spec (List String) where
